@@ -268,6 +268,10 @@ def check_entry(acc: Acc, case):
         coro = goodwe.connect("192.0.2.1", case["port"], case["family"], 0, T, R)
     elif entry == "discover":
         coro = goodwe.discover("192.0.2.1", case["port"], T, R)
+    elif entry == "connect-discover":      # connect() without a family falls through to discover() and must hand timeout/retries on
+        coro = goodwe.connect("192.0.2.1", case["port"], case.get("family"), 0, T, R)
+    elif entry == "connect-nothing":       # no family, discovery switched off: nothing may be transmitted, InverterError at once
+        coro = goodwe.connect("192.0.2.1", case["port"], case.get("family"), 0, T, R, False)
     else:
         coro = goodwe.search_inverters()
         T, R = 1, 0
@@ -281,6 +285,12 @@ def check_entry(acc: Acc, case):
     if out.exc is None:
         fails.append((key0 + "|succeeded-against-silence", "returned %r against a silent peer" % (out.result,), case))
     groups = group_requests(world.tx, tcp=case.get("port") == 502)
+    if entry == "connect-nothing":
+        from goodwe.exceptions import InverterError
+        if groups or not isinstance(out.exc, InverterError) or out.t_end != out.t_start:
+            fails.append((key0 + "|unexpected", "connect(family=%r, do_discover=False): %d probes, outcome %r after %r s" % (
+                case.get("family"), len(groups), out.exc, out.t_end - out.t_start), case))
+        return fails
     if not groups:
         fails.append((key0 + "|nothing-sent", "no transmission at all; outcome %r" % (out.exc,), case))
     for data, times in groups:
@@ -320,6 +330,9 @@ def entry_cases(quick):
                 cases.append({"entry": "connect", "family": fam, "port": port, "T": T, "R": R})
         for port in (8899, 502):
             cases.append({"entry": "discover", "port": port, "T": T, "R": R})
+            for fam in (None, "", "XX", "et"):
+                cases.append({"entry": "connect-discover", "family": fam, "port": port, "T": T, "R": R})
+                cases.append({"entry": "connect-nothing", "family": fam, "port": port, "T": T, "R": R})
     cases.append({"entry": "search", "T": 1, "R": 0})
     return cases
 
